@@ -1478,3 +1478,62 @@ def qq_atoms(b, n):
 def qq_has(b, n, substr, pol):
     import qq
     return qq.has_atom(qq.guard_atoms(b, n), substr, pol)
+
+
+@RULES.rule("R2.5", "padding and opaque blobs are built from the requested size and alignment only (shared with C10 R10.5)", floor=6)
+def r2_5(rep):
+    """helpers::blob backs every explicit padding field: `len = size / align` units of the alignment's integer type.
+    Rounding the count up (`(size + align - 1) / align`) makes the padding in front of an `aligned(8)` int one unit too long,
+    so the member and everything after it move (an independently seeded change did exactly this)."""
+    import c10
+    c10.r10_5(rep)
+
+
+@RULES.rule("R2.6", "`#pragma pack` is inferred from EVERY member whose alignment exceeds the record's", floor=6)
+def r2_6(rep):
+    """libclang does not expose `#pragma pack`; `CompInfo::is_packed` detects it when some member's own alignment is larger
+    than the alignment clang reports for the record.  Any extra condition on the member (size != 0, named, not an array …)
+    loses `#pragma pack(1) struct { unsigned char len; unsigned int words[]; }`, which is then emitted as plain repr(C) with
+    size 4 instead of 1."""
+    prog = rep.prog
+    b = rep.need(prog.fn("ir::comp::CompInfo::is_packed"), "CompInfo::is_packed")
+    # (a) the packed attribute decides on its own
+    rets = [n for n in b.walk() if n["k"] == "Ret" and strip(n.get("e", {})).get("v") is True]
+    rep.check(any(any("CompInfo::packed_attr" in a and p for a, p, _ in qq_atoms(b, r)) and len(qq_atoms(b, r)) == 1 for r in rets), "attr-decides",
+              "`packed_attr` alone makes the record packed", b.loc(b.root))
+    # (b) the inference compares member alignment with record alignment, nothing else
+    cmps = [n for n in b.walk() if n["k"] == "Binary" and n["op"] in (">", "<") and "Layout::align" in b.canon(n["l"], 5) and "Layout::align" in b.canon(n["r"], 5)]
+    if rep.check(len(cmps) == 1, "align-comparison", "one comparison of a member's alignment with the record's (found %d)" % len(cmps), b.loc(b.root)):
+        c = cmps[0]
+        big, small = (c["l"], c["r"]) if c["op"] == ">" else (c["r"], c["l"])
+        rep.check("cparam:" in b.canon(big, 5) and "param:layout" in b.canon(small, 5), "align-comparison-operands",
+                  "member.align > record.align (found %s > %s)" % (b.canon(big, 4)[:50], b.canon(small, 4)[:50]), b.loc(c))
+        weakened = [a for a in b.ancestors(c) if a["k"] == "Binary" and a["op"] == "&&"]
+        clo = [a for a in b.ancestors(c) if a["k"] == "Closure"]
+        extra = []
+        if clo:
+            # only conjunctive restrictions matter: `packed || cmp` (accumulation) does not exclude any member
+            extra = [g for g in b.guards(c) if g[1] == "cond" and g[0] and any(x is clo[0] for x in b.ancestors(g[2]))]
+        rep.check(not weakened and not extra, "no-extra-member-condition",
+                  "no further condition restricts which members count (found %s)" % ([b.canon(a, 4)[:80] for a in weakened] + [b.canon(g[2], 4)[:80] for g in extra]), b.loc(c))
+        if clo:
+            p = b.parent[clo[0]["_i"]]
+            while p is not None and p["k"] in ("AddrOf",):
+                p = b.parent[p["_i"]]
+            rep.check(p is not None and p["k"] == "MCall" and (p.get("callee") or "").endswith("each_known_field_layout"), "all-members-visited",
+                      "the test runs for every member with a known layout (each_known_field_layout)", b.loc(c))
+    ek = rep.need(prog.fn("ir::comp::CompInfo::each_known_field_layout"), "CompInfo::each_known_field_layout")
+    calls = [c for c in ek.calls(lambda n: n["k"] == "Call" and "f" in n and strip(n["f"]).get("name") == "callback")]
+    fors = [n for n in ek.walk() if n["k"] == "For"]
+    okall = bool(calls) and len(fors) >= 2
+    for c in calls:
+        atoms = [a for a, p, _ in qq_atoms(ek, c) if not a.startswith("arm:")]
+        okall = okall and all(a.startswith("let ") and "layout" in a for a in atoms)
+        lp = [a for a in ek.ancestors(c) if a["k"] == "For"]
+        okall = okall and bool(lp) and not re_search_lossy(ek.canon(lp[0]["iter"], 6))
+    rep.check(okall, "each-known-field-layout-complete", "the callback is invoked for every field whose layout is known, in both field representations", ek.loc(ek.root))
+
+
+def re_search_lossy(s):
+    import re as _re
+    return _re.search(r"::(skip|take|filter|step_by|take_while|skip_while)\(", s) is not None
